@@ -329,6 +329,8 @@ def run_history(rec, kind, rnd, cycles, case):
             dut, callers, targets, info = make(rnd)
             circ = Circ(dut, callers, targets)
             sim = PysimSimulator(circ, max_cycles=cycles + 10)
+            from .. import txsan
+            txsan.maybe_attach(sim, case)
         except Exception:
             rec.check("constructs", False, case=case, detail=traceback.format_exc()[-1200:])
             return
